@@ -295,6 +295,17 @@ def witnesses(pm: ProgramModel, ctx: Ctx) -> None:
                       "equal relations are not strictly ordered (sort key invariant under ==)",
                       bad=f"Relation.__lt__ orders two equal relations (a<b {l1}, b<a {l2}): its "
                           f"key depends on the stored order of children")
+    # relations with ONE member and bounds other than [1..1] / [0..1] (UVL writes `[1..*]` over a single feature): the bounds
+    # count there too
+    rw_ = _where(pm, "Relation")
+    for (lo1, hi1), (lo2, hi2) in (((1, -1), (0, -1)), ((1, 1), (1, -1)), ((0, 1), (0, -1)), ((0, 0), (1, 1)), ((1, 3), (1, 2))):
+        pa_, pb_ = mb.feature("P"), mb.feature("P")
+        ra_ = mb.relation(pa_, [mb.feature("only")], lo1, hi1)
+        rb_ = mb.relation(pb_, [mb.feature("only")], lo2, hi2)
+        must_differ(f"Relation:single-member:[{lo1}..{hi1}]/[{lo2}..{hi2}]", ra_, rb_,
+                    f"one-member relations [{lo1}..{hi1}] and [{lo2}..{hi2}]", rw_)
+        must_differ(f"FeatureModel:single-member:[{lo1}..{hi1}]/[{lo2}..{hi2}]", mb.model(pa_, []), mb.model(pb_, []),
+                    f"models whose one-member relation is [{lo1}..{hi1}] / [{lo2}..{hi2}]", rw_)
     # Constraint ----------------------------------------------------------------------------------
     cw = _where(pm, "Constraint")
     op = mb.op
